@@ -11,6 +11,8 @@ pub struct Capture {
     pub grams: Vec<(usize, Vec<u8>)>,
     pub user_writer_ids: Vec<[u8; 4]>,
     pub user_reader_ids: Vec<[u8; 4]>,
+    /// highest user DATA sequence number seen from each participant
+    pub last_user_sn: [i64; 2],
 }
 
 impl Capture {
@@ -20,6 +22,7 @@ impl Capture {
             grams: Vec::new(),
             user_writer_ids: vec![[0, 0, 1, 0x02]],
             user_reader_ids: vec![[0, 0, 1, 0x07]],
+            last_user_sn: [0; 2],
         }
     }
     pub fn add(&mut self, src: usize, bytes: &[u8]) {
@@ -31,6 +34,9 @@ impl Capture {
             self.prefix[src] = w.guid_prefix;
         }
         for s in &w.subs {
+            if src < 2 && s.id == rtpswalk::DATA && !s.is_builtin() && s.sn > self.last_user_sn[src] {
+                self.last_user_sn[src] = s.sn;
+            }
             if s.has_entity_ids() && !s.is_builtin() {
                 if s.writer_id != [0; 4] && !self.user_writer_ids.contains(&s.writer_id) {
                     self.user_writer_ids.push(s.writer_id);
@@ -79,7 +85,99 @@ pub const CLASSES: &[&str] = &[
     "typelookup_garbage",
     "spoofed_user_data_garbage",
     "data_key_only_garbage",
+    "seq_partial_fragment_then_heartbeat_jump",
+    "seq_partial_fragment_then_gap_jump",
+    "seq_fragments_overlapping_inconsistent",
 ];
+
+/// Multi-datagram classes return several datagrams that are injected back to back; every other
+/// class yields one datagram.
+pub fn build_seq(rng: &mut Rng, cap: &Capture, class: usize, victim: usize) -> Vec<Vec<u8>> {
+    let name = CLASSES[class];
+    if !name.starts_with("seq_") {
+        return vec![build(rng, cap, class, victim)];
+    }
+    // everything is sent in the name of the already discovered peer, from one of its matched writers
+    let peer = 1 - victim.min(1);
+    let prefix = cap.prefix[peer];
+    let builtin = rng.chance(0.4);
+    let (wid, rid, base_sn): ([u8; 4], [u8; 4], i64) = if builtin {
+        let i = 1 + rng.usize(3); // SEDP publications / subscriptions / topics writer
+        ([[0, 0, 3, 0xc2], [0, 0, 4, 0xc2], [0, 0, 2, 0xc2]][i - 1], [[0, 0, 3, 0xc7], [0, 0, 4, 0xc7], [0, 0, 2, 0xc7]][i - 1], 0)
+    } else {
+        (*rng.pick(&cap.user_writer_ids), *rng.pick(&cap.user_reader_ids), cap.last_user_sn[peer])
+    };
+    let frag = |sn_v: i64, start: u32, nfrags: u16, fsize: u16, ssize: u32, payload_len: usize, rng: &mut Rng| -> Vec<u8> {
+        let mut m = hdr(&prefix);
+        let mut b = vec![0u8, 0, 28, 0];
+        b.extend_from_slice(&rid);
+        b.extend_from_slice(&wid);
+        b.extend_from_slice(&sn(sn_v));
+        b.extend_from_slice(&start.to_le_bytes());
+        b.extend_from_slice(&nfrags.to_le_bytes());
+        b.extend_from_slice(&fsize.to_le_bytes());
+        b.extend_from_slice(&ssize.to_le_bytes());
+        b.extend_from_slice(&rng.bytes(payload_len));
+        sub(&mut m, rtpswalk::DATA_FRAG, 0, &b);
+        m
+    };
+    let mut out = Vec::new();
+    // a reliable reader only buffers fragments of the sequence number it expects next: guess a range
+    let guesses: Vec<i64> = (1..=24).map(|d| base_sn + d).collect();
+    match name {
+        "seq_partial_fragment_then_heartbeat_jump" | "seq_partial_fragment_then_gap_jump" => {
+            for g in &guesses {
+                out.push(frag(*g, 1, 1, 16, 32, 16, rng)); // fragment 1 of 2
+            }
+            let first = base_sn + *rng.pick(&[2i64, 5, 30, 100, 1 << 20]);
+            let last = *rng.pick(&[i64::MAX, i64::MAX - 1, 1 << 62, 1 << 40, first + 1000]);
+            let mut m = hdr(&prefix);
+            if name.ends_with("heartbeat_jump") {
+                let mut b = rid.to_vec();
+                b.extend_from_slice(&wid);
+                b.extend_from_slice(&sn(first));
+                b.extend_from_slice(&sn(last));
+                b.extend_from_slice(&(*rng.pick(&[1000u32, 0x7fff_0000, 50_000])).to_le_bytes());
+                sub(&mut m, rtpswalk::HEARTBEAT, 0, &b);
+            } else {
+                let mut b = rid.to_vec();
+                b.extend_from_slice(&wid);
+                b.extend_from_slice(&sn(base_sn + 1));
+                b.extend_from_slice(&snset(rng, last, 0, 0));
+                sub(&mut m, rtpswalk::GAP, 0, &b);
+                // followed by a heartbeat that makes the reader answer
+                let mut h = rid.to_vec();
+                h.extend_from_slice(&wid);
+                h.extend_from_slice(&sn(1));
+                h.extend_from_slice(&sn(last));
+                h.extend_from_slice(&0x7fff_0001u32.to_le_bytes());
+                sub(&mut m, rtpswalk::HEARTBEAT, 0, &h);
+            }
+            out.push(m);
+        }
+        _ => {
+            // fragments of one sample that contradict each other (sizes, counts, overlaps)
+            for g in guesses.iter().take(6) {
+                out.push(frag(*g, 1, 1, 16, 48, 16, rng));
+                out.push(frag(*g, 2, 2, 8, 48, 16, rng));
+                out.push(frag(*g, 1, 3, 16, 40, 40, rng));
+                out.push(frag(*g, 3, 1, 16, 33, 1, rng));
+            }
+            let mut m = hdr(&prefix);
+            let mut h = rid.to_vec();
+            h.extend_from_slice(&wid);
+            h.extend_from_slice(&sn(1));
+            h.extend_from_slice(&sn(base_sn + 30));
+            h.extend_from_slice(&0x7fff_0002u32.to_le_bytes());
+            sub(&mut m, rtpswalk::HEARTBEAT, 0, &h);
+            out.push(m);
+        }
+    }
+    out
+}
+
+#[allow(dead_code)]
+const _UNUSED: [&str; 0] = [];
 
 fn hdr(prefix: &[u8; 12]) -> Vec<u8> {
     let mut v = b"RTPS".to_vec();
